@@ -102,6 +102,10 @@ func (re *remainderExprNode) Run(ctx context.Context, currField string, tagExpr 
 	if v1 == 0 {
 		return math.NaN()
 	}
+	// the remainder is taken on the truncated integers: a divisor in (-1,1) truncates to 0
+	if int64(v1) == 0 {
+		return math.NaN()
+	}
 	v0, _ := toFloat64(re.leftOperand.Run(ctx, currField, tagExpr), true)
 	return float64(int64(v0) % int64(v1))
 }
